@@ -276,7 +276,7 @@ var def = pbt.Def[Case]{Name: "exchange", Gen: gen, Run: judge}
 
 func TestProp(t *testing.T) {
 	outerT = t
-	pbt.Check(t, run, def, 20000, 3000000)
+	pbt.Check(t, run, def, 20000, 1500000)
 }
 
 func TestReplay(t *testing.T) {
